@@ -304,14 +304,15 @@ def run_cases(ctx, cases, tag):
 
 
 def gen_generator_cases(ctx, n):
-    """Direct inputs of _single_event_per_dump: non-decreasing dump indices starting at 0 plus terminator."""
+    """Direct inputs of _single_event_per_dump: non-decreasing dump indices starting at 0 plus terminator,
+    values over the alphabet and a greedy set (flags = value in greedy set)."""
     rng = ctx.rng
     out = []
     for _ in range(n):
         nd = rng.randint(1, 7)
         m = rng.randint(1, 9)
         ev = sorted([0] + [rng.randint(0, nd - 1) for _ in range(m - 1)])
-        out.append((ev + [nd], [rng.random() < 0.35 for _ in range(m)]))
+        out.append((ev + [nd], [rng.choice([1, 2, 3, 4]) for _ in range(m)], rng.choice([[], [3], [3, 4], [1, 4]])))
     return out
 
 
@@ -319,19 +320,28 @@ def run_generator(ctx, gcases):
     from katdal.categorical import _single_event_per_dump
     if not ctx.model_ok or not gcases:
         return
-    mouts = ctx.model([[101, [ev, [int(b) for b in g]]] for ev, g in gcases])
-    for (ev, g), mo in zip(gcases, mouts):
+    mouts = ctx.model([[101, [ev, [int(v in g) for v in vals]]] for ev, vals, g in gcases])
+    mouts2 = ctx.model([[102, [ev, vals, g]] for ev, vals, g in gcases])
+    for (ev, vals, g), mo, mo2 in zip(gcases, mouts, mouts2):
         arr = np.array(ev)
+        case = dict(path='generator', events=ev, vals=vals, greedy=g)
         try:
-            cleaned = [int(i) for i in _single_event_per_dump(arr, list(g))]
+            cleaned = [int(i) for i in _single_event_per_dump(arr, [v in g for v in vals])]
             ob = [cleaned, [int(x) for x in arr]]
+            pairs = [[vals[i], int(arr[i])] for i in cleaned]
         except Exception as e:   # noqa: BLE001
             ob = ['err', type(e).__name__]
+            pairs = ob
         ctx.traces_validated += 1
         if ob != mo:
-            ctx.disagree('path=generator;symptom=tie_cleaned_up', dict(path='generator', events=ev, greedy=[int(b) for b in g]),
-                         ob, mo, '_single_event_per_dump differs from the model of the generator', kind='tie')
-        ctx.note_case(('gen', tuple(ev), tuple(g)), nontrivial=len(set(ev)) < len(ev) and any(g), sample=None)
+            ctx.disagree('path=generator;symptom=tie_cleaned_up', case, ob, mo,
+                         '_single_event_per_dump differs from the index-based model of the generator', kind='tie')
+        elif pairs != mo2[0] or pairs != mo2[1]:
+            ctx.disagree('path=generator;symptom=tie_cached_lookup_machine', case, pairs, mo2,
+                         '(value, dump) pairs of _single_event_per_dump differ from the cached-look-up machine the '
+                         'per-dump theorem is proved about', kind='tie')
+        ctx.note_case(('gen', tuple(ev), tuple(vals), tuple(g)),
+                      nontrivial=len(set(ev)) < len(ev) and any(v in g for v in vals), sample=None)
         ctx.count('generator_direct')
 
 
@@ -414,7 +424,7 @@ def replay(ctx, doc):
     _quiet()
     case = doc.get('case', {})
     if case.get('path') == 'generator':
-        run_generator(ctx, [(case['events'], [bool(b) for b in case['greedy']])])
+        run_generator(ctx, [(case['events'], case['vals'], case['greedy'])])
         return
     if 'ts' not in case:
         return run(ctx)
